@@ -7,11 +7,27 @@ abbrev El := Int × Nat
 
 def fdiv4 (k : Int) : Int := k.fdiv 4
 
-def ordOf : String → Option (El → El → Bool)
+/-- the harness' rank table order: a fixed permutation of `key mod 32` -/
+def rankOf (k : Int) : Int := ((k.emod 32) * 13 + 5).emod 32
+
+def baseOrd : String → Option (El → El → Bool)
   | "lt" => some fun a b => decide (a.1 < b.1)
   | "def" => some fun a b => decide (a.1 < b.1)
   | "gt" => some fun a b => decide (a.1 > b.1)
   | "q4" => some fun a b => decide (fdiv4 a.1 < fdiv4 b.1)
+  | "rk" => some fun a b => decide (rankOf a.1 < rankOf b.1)
+  | _ => none
+
+/-- `fn-<o>`, `fnt-<o>`, `own-<o>`, `ownt-<o>`, `ownd`: the comparator *carrier* (std::function, an object owning
+    a heap table, lvalue / temporary / default-constructed) is invisible to the model: only the order counts -/
+def ordOf (s : String) : Option (El → El → Bool) :=
+  if s = "ownd" then baseOrd "rk" else
+  match s.splitOn "-" with
+  | [o] => if o = "rk" then none else baseOrd o
+  | [c, o] =>
+    if o = "def" then none
+    else if c = "fn" || c = "fnt" then (if o = "rk" then none else baseOrd o)
+    else if c = "own" || c = "ownt" then baseOrd o else none
   | _ => none
 
 def famOf : String → Option Family
@@ -61,7 +77,9 @@ def step (_ : Unit) (ts : List String) : Unit × String :=
   -- function of the logical sequence
   let ts := match ts with
     | "runi" :: kind :: variant :: rest =>
-      if ["ptr", "rev", "deque", "stride"].contains kind && variant.toNat?.isSome then "run" :: rest else ["bad"]
+      -- comparator carriers are exercised through pointers only
+      let carrierOk := kind = "ptr" || (match rest with | [_, _, _, o, _] => ["lt", "gt", "q4", "def"].contains o | _ => false)
+      if ["ptr", "rev", "deque", "stride"].contains kind && variant.toNat?.isSome && carrierOk then "run" :: rest else ["bad"]
     | ["zo", f, e, n, kind] => if ["ptr", "rev", "deque", "stride"].contains kind then ["zo", f, e, n] else ["bad"]
     | _ => ts
   let r : Option String :=
